@@ -270,6 +270,10 @@ package parser
 //@   decreases rank(packet)
 //@ func (LuaWspGenerator).generateSubDissector
 //@   decreases rank(pkt)
+//@ func (LuaWspGenerator).refsEmitted
+//@   decreases rank(pkt)
+//@ func (LuaWspGenerator).Generate
+//@   loop 0 decreases len(binModel.Packets) - round
 //@ func (LuaWspGenerator).generateFieldDefinitionFromPacket
 //@   decreases rank(pkt)
 //@ func (PythonGenerator).generateCodeForPacket
